@@ -224,11 +224,35 @@ theorem jacobi_decomposition (A0 : M3 K) (Rs : List (M3 K)) (hR : ∀ R ∈ Rs, 
 example : Orth (G01 (3/5 : ℚ) (4/5)) := orth_G01 (by norm_num)
 
 
+/-! The remaining theorems are stated for fields of characteristic 0 (ℝ, ℚ(√2), …). -/
+section char0
+variable [CharZero K]
+
+/-- close a goal that is a power-of-two multiple of the determinant hypothesis, or an identity -/
+macro "c03_det" h:term : tactic =>
+  `(tactic| (first
+      | ring1
+      | (linear_combination ($h))
+      | (linear_combination (-1) * ($h))
+      | (linear_combination (2) * ($h))
+      | (linear_combination (-2) * ($h))
+      | (linear_combination (4) * ($h))
+      | (linear_combination (-4) * ($h))
+      | (linear_combination (8) * ($h))
+      | (linear_combination (-8) * ($h))
+      | (linear_combination (16) * ($h))
+      | (linear_combination (-16) * ($h))
+      | (linear_combination (32) * ($h))
+      | (linear_combination (-32) * ($h))
+      | (linear_combination (64) * ($h))
+      | (linear_combination (-64) * ($h))
+      ))
+
 /-! ## (d) eigenvector of the default solver: `(A − vp) v = 0` when `det(A − vp) = 0`, `|v| = 1`
 
 Inputs are the stored components `s` (so `A_01 = s3/√2 = s3 (c/2)` …) and the eigenvalue `vp`. -/
 /-- branch `det3` (the largest 2×2 minor of `A − vp` is the one used as divisor) -/
-theorem eigvec_det3 (s0 s1 s2 s3 s4 s5 vp : K)
+theorem eigvec_det3 (s0 s1 s2 s3 s4 s5 vp : K) (h2 : (2 : K) ≠ 0)
     (hdet : (M3.sym s0 s1 s2 (s3 * (1 / 2 * c)) (s4 * (1 / 2 * c)) (s5 * (1 / 2 * c)) - vp • (1 : M3 K)).det = 0)
     (hm : Gen.eigvec_det3_minor c c3 fn s0 s1 s2 s3 s4 s5 vp ≠ 0) (hn : Gen.eigvec_det3_nr c c3 fn s0 s1 s2 s3 s4 s5 vp ≠ 0)
     (hsq : Gen.eigvec_det3_nr c c3 fn s0 s1 s2 s3 s4 s5 vp * Gen.eigvec_det3_nr c c3 fn s0 s1 s2 s3 s4 s5 vp = Gen.eigvec_det3_nr2 c c3 fn s0 s1 s2 s3 s4 s5 vp) :
@@ -241,18 +265,16 @@ theorem eigvec_det3 (s0 s1 s2 s3 s4 s5 vp : K)
   simp only [M3.sym, M3.det, M3.sub_def, M3.sub, M3.smul_def, M3.smul, M3.one_def, M3.one] at hdet
   simp only [gen_simp]
   generalize fn.sqrt _ = r at *
+  generalize hD : (s0 - vp) * (s1 - vp) - _ = D at *
   refine ⟨?_, ?_, ?_, ?_, trivial⟩
-  · field_simp
-    first | ring1 | linear_combination hdet | linear_combination (-1 : K) * hdet
-  · field_simp
-    first | ring1 | linear_combination hdet | linear_combination (-1 : K) * hdet
-  · field_simp
-    first | ring1 | linear_combination hdet | linear_combination (-1 : K) * hdet
+  · field_simp; subst hD; c03_det hdet
+  · field_simp; subst hD; c03_det hdet
+  · field_simp; subst hD; c03_det hdet
   · field_simp at hsq ⊢
     first | linear_combination hsq | linear_combination (-1 : K) * hsq
 
 /-- branch `det1` (the largest 2×2 minor of `A − vp` is the one used as divisor) -/
-theorem eigvec_det1 (s0 s1 s2 s3 s4 s5 vp : K)
+theorem eigvec_det1 (s0 s1 s2 s3 s4 s5 vp : K) (h2 : (2 : K) ≠ 0)
     (hdet : (M3.sym s0 s1 s2 (s3 * (1 / 2 * c)) (s4 * (1 / 2 * c)) (s5 * (1 / 2 * c)) - vp • (1 : M3 K)).det = 0)
     (hm : Gen.eigvec_det1_minor c c3 fn s0 s1 s2 s3 s4 s5 vp ≠ 0) (hn : Gen.eigvec_det1_nr c c3 fn s0 s1 s2 s3 s4 s5 vp ≠ 0)
     (hsq : Gen.eigvec_det1_nr c c3 fn s0 s1 s2 s3 s4 s5 vp * Gen.eigvec_det1_nr c c3 fn s0 s1 s2 s3 s4 s5 vp = Gen.eigvec_det1_nr2 c c3 fn s0 s1 s2 s3 s4 s5 vp) :
@@ -265,18 +287,16 @@ theorem eigvec_det1 (s0 s1 s2 s3 s4 s5 vp : K)
   simp only [M3.sym, M3.det, M3.sub_def, M3.sub, M3.smul_def, M3.smul, M3.one_def, M3.one] at hdet
   simp only [gen_simp]
   generalize fn.sqrt _ = r at *
+  generalize hD : (s1 - vp) * (s2 - vp) - _ = D at *
   refine ⟨?_, ?_, ?_, ?_, trivial⟩
-  · field_simp
-    first | ring1 | linear_combination hdet | linear_combination (-1 : K) * hdet
-  · field_simp
-    first | ring1 | linear_combination hdet | linear_combination (-1 : K) * hdet
-  · field_simp
-    first | ring1 | linear_combination hdet | linear_combination (-1 : K) * hdet
+  · field_simp; subst hD; c03_det hdet
+  · field_simp; subst hD; c03_det hdet
+  · field_simp; subst hD; c03_det hdet
   · field_simp at hsq ⊢
     first | linear_combination hsq | linear_combination (-1 : K) * hsq
 
 /-- branch `det2` (the largest 2×2 minor of `A − vp` is the one used as divisor) -/
-theorem eigvec_det2 (s0 s1 s2 s3 s4 s5 vp : K)
+theorem eigvec_det2 (s0 s1 s2 s3 s4 s5 vp : K) (h2 : (2 : K) ≠ 0)
     (hdet : (M3.sym s0 s1 s2 (s3 * (1 / 2 * c)) (s4 * (1 / 2 * c)) (s5 * (1 / 2 * c)) - vp • (1 : M3 K)).det = 0)
     (hm : Gen.eigvec_det2_minor c c3 fn s0 s1 s2 s3 s4 s5 vp ≠ 0) (hn : Gen.eigvec_det2_nr c c3 fn s0 s1 s2 s3 s4 s5 vp ≠ 0)
     (hsq : Gen.eigvec_det2_nr c c3 fn s0 s1 s2 s3 s4 s5 vp * Gen.eigvec_det2_nr c c3 fn s0 s1 s2 s3 s4 s5 vp = Gen.eigvec_det2_nr2 c c3 fn s0 s1 s2 s3 s4 s5 vp) :
@@ -289,13 +309,11 @@ theorem eigvec_det2 (s0 s1 s2 s3 s4 s5 vp : K)
   simp only [M3.sym, M3.det, M3.sub_def, M3.sub, M3.smul_def, M3.smul, M3.one_def, M3.one] at hdet
   simp only [gen_simp]
   generalize fn.sqrt _ = r at *
+  generalize hD : (s0 - vp) * (s2 - vp) - _ = D at *
   refine ⟨?_, ?_, ?_, ?_, trivial⟩
-  · field_simp
-    first | ring1 | linear_combination hdet | linear_combination (-1 : K) * hdet
-  · field_simp
-    first | ring1 | linear_combination hdet | linear_combination (-1 : K) * hdet
-  · field_simp
-    first | ring1 | linear_combination hdet | linear_combination (-1 : K) * hdet
+  · field_simp; subst hD; c03_det hdet
+  · field_simp; subst hD; c03_det hdet
+  · field_simp; subst hD; c03_det hdet
   · field_simp at hsq ⊢
     first | linear_combination hsq | linear_combination (-1 : K) * hsq
 
@@ -383,8 +401,6 @@ theorem sytrd3_diag (a00 a11 a22 a01 a02 a12 : K) :
 
 
 /-! ## (c) Cardano's closed form (`syevc3`): Vieta's relations (fields of characteristic 0) -/
-section cardano
-variable [CharZero K]
 set_option maxRecDepth 100000
 
 /-- what the traced intermediate quantities are: trace, coefficients of the characteristic polynomial
@@ -443,6 +459,6 @@ theorem syevc3_roots (a00 a11 a22 a01 a02 a12 : K) (h3 : (3 : K) ≠ 0) (h2 : (2
   generalize Gen.syevc3_w2 c c3 fn a00 a11 a22 a01 a02 a12 = x2
   refine ⟨by ring, by ring, by ring⟩
 
-end cardano
+end char0
 
 end TfelVerif.C03.Props
